@@ -59,14 +59,18 @@ Definition owning_readd (s : qstate) (bufsz index addr ae uf : N) : outcome unit
     | UB => (UB, s1, map OQ evs)
     end.
 
-(* OwningQueue::poll with a handler that always succeeds (its result is passed through). A length above
-   BUFFER_SIZE is an IoError, but the buffer is re-posted all the same. *)
-Definition owning_poll (s : qstate) (bufsz u_idx u_id u_len addr ae uf : N)
+(* what the caller's handler answers: 0 = Ok(Some _), 1 = Ok(None), 2 = Err(IoError) *)
+Definition handler_result (hres len token : N) : outcome (option (N * N)) :=
+  if hres =? 0 then Ok (Some (len, token)) else if hres =? 1 then Ok None else Err EIoError.
+
+(* OwningQueue::poll; the handler's result is passed through. A length above BUFFER_SIZE is an IoError
+   (the handler is not called). The buffer is re-posted whatever the result. *)
+Definition owning_poll (s : qstate) (bufsz u_idx u_id u_len addr ae uf hres : N)
   : outcome (option (N * N)) * qstate * list oev :=
   let '(o, s1, evs) := owning_pop s bufsz u_idx u_id u_len in
   match o with
   | Ok (Some (len, token)) =>
-      let result : outcome (option (N * N)) := if bufsz <? len then Err EIoError else Ok (Some (len, token)) in
+      let result : outcome (option (N * N)) := if bufsz <? len then Err EIoError else handler_result hres len token in
       let '(o2, s2, evs2) := owning_readd s1 bufsz token addr ae uf in
       match o2 with
       | Ok _ => (result, s2, map OQ evs ++ evs2)
